@@ -240,6 +240,12 @@ func c50GenTree(rt *rapid.T) *c50Tree {
 		}
 		if t.addFile(rel, content) {
 			id++
+			// pre-compressed sibling (what EnableCompress looks for)
+			if sib := rapid.SampledFrom([]string{"", "", "", "", ".gz", ".br"}).Draw(rt, "sibling"); sib != "" {
+				if t.addFile(rel+sib, []byte(fmt.Sprintf("F%d<%s>", id, rel+sib))) {
+					id++
+				}
+			}
 		}
 	}
 	return t
@@ -295,7 +301,7 @@ func c50EncodeSeg(rt *rapid.T, s string, label string) string {
 }
 
 // c50GenTarget builds a request-target from the traversal grammar.
-func c50GenTarget(rt *rapid.T, t *c50Tree, rootDepthNames []string) (target string, feats []string) {
+func c50GenTarget(rt *rapid.T, t *c50Tree, rootDepthNames []string, host string) (target string, feats []string) {
 	var files, dirs []string
 	for p := range t.Files {
 		files = append(files, p)
@@ -314,6 +320,14 @@ func c50GenTarget(rt *rapid.T, t *c50Tree, rootDepthNames []string) (target stri
 	case kind <= 3 && len(files) > 0:
 		segs = strings.Split(rapid.SampledFrom(files).Draw(rt, "dest-file"), "/")
 		feats = append(feats, "dest-file")
+		if rapid.IntRange(0, 3).Draw(rt, "climb-first") == 0 {
+			// climb above the root first; a cleaned path comes back to the same file
+			up := rapid.IntRange(1, 3).Draw(rt, "climb")
+			for i := 0; i < up; i++ {
+				segs = append([]string{".."}, segs...)
+			}
+			feats = append(feats, "dest-file-via-climb")
+		}
 	case kind == 4 && len(dirs) > 0:
 		segs = strings.Split(rapid.SampledFrom(dirs).Draw(rt, "dest-dir"), "/")
 		feats = append(feats, "dest-dir")
@@ -379,7 +393,7 @@ func c50GenTarget(rt *rapid.T, t *c50Tree, rootDepthNames []string) (target stri
 	var b strings.Builder
 	for i, s := range segs {
 		sep := "/"
-		switch rapid.IntRange(0, 11).Draw(rt, "sep") {
+		switch rapid.IntRange(0, 19).Draw(rt, "sep") {
 		case 0:
 			sep = "%2f"
 		case 1:
@@ -406,7 +420,7 @@ func c50GenTarget(rt *rapid.T, t *c50Tree, rootDepthNames []string) (target stri
 	if len(segs) == 0 {
 		b.WriteString("/")
 	}
-	switch rapid.IntRange(0, 9).Draw(rt, "tail") {
+	switch rapid.IntRange(0, 15).Draw(rt, "tail") {
 	case 0:
 		b.WriteString("/")
 	case 1:
@@ -420,7 +434,8 @@ func c50GenTarget(rt *rapid.T, t *c50Tree, rootDepthNames []string) (target stri
 	}
 	target = b.String()
 	if rapid.IntRange(0, 14).Draw(rt, "absform") == 0 {
-		target = "http://s0.example.org" + target
+		target = "http://" + host + target
+		feats = append(feats, "absolute-form")
 	}
 	return target, feats
 }
@@ -539,6 +554,7 @@ func TestC50(t *testing.T) {
 	w := c50Start(t)
 	rec.Set("enable_compress", w.compress)
 	rootNames := strings.Split(strings.Trim(filepath.ToSlash(w.root), "/"), "/")
+	c50Sweep(t, rec, w, rootNames)
 	rapid.Check(t, func(rt *rapid.T) {
 		tree := c50GenTree(rt)
 		if err := c50WriteTree(w.root, tree); err != nil {
@@ -584,7 +600,7 @@ func TestC50(t *testing.T) {
 			if rule.RootRel != "" {
 				depthNames = append(append([]string{}, rootNames...), strings.Split(rule.RootRel, "/")...)
 			}
-			target, feats := c50GenTarget(rt, view, depthNames)
+			target, feats := c50GenTarget(rt, view, depthNames, rule.Host)
 			method := rapid.SampledFrom([]string{"GET", "GET", "GET", "GET", "GET", "HEAD", "HEAD", "POST", "PUT", "DELETE", "OPTIONS", "get", "PATCH", "Head"}).Draw(rt, "method")
 			ae := rapid.SampledFrom([]string{"", "", "gzip", "br", "gzip, br", "br, gzip", "deflate, gzip;q=0.5", "identity", "GZIP", "gzip;q=0", "*"}).Draw(rt, "accept-encoding")
 			c50One(rt, rec, w, tree, view, rule, ruleJSON, method, target, ae, feats)
@@ -592,7 +608,63 @@ func TestC50(t *testing.T) {
 	})
 }
 
-func c50One(rt *rapid.T, rec *ev.Rec, w *c50World, tree, view *c50Tree, rule c50Rule, ruleJSON, method, target, ae string, feats []string) {
+// c50Sweep: deterministic part — a fixed tree and the classic traversal spellings
+// against every method / Accept-Encoding / default-file combination.
+func c50Sweep(t *testing.T, rec *ev.Rec, w *c50World, rootNames []string) {
+	tree := &c50Tree{Files: map[string][]byte{}, Dirs: map[string]bool{"": true}}
+	for _, f := range []struct{ p, c string }{
+		{"a.txt", "F0<a.txt>"}, {"b.txt", "F1<b.txt>"}, {"b.txt.gz", "F2<b.txt.gz>"}, {"b.txt.br", "F3<b.txt.br>"},
+		{"index.html", "F4<index.html>"}, {"index.html.gz", "F5<index.html.gz>"}, {"sub/c.js", "F6<sub/c.js>"}, {"sub/index.html", "F7<sub/index.html>"},
+		{"empty", ""}, {"only.gz", "F8<only.gz>"}, {"sub/deep/x..", "F9<x..>"}, {"...", "F10<...>"}, {c50Long200, "F11<long>"},
+		{"secret.txt", "F12<inside secret.txt>"}, {"%2e%2e", "F13<literal %2e%2e>"}, {"sub/b\\c", "F14<backslash>"},
+	} {
+		tree.addFile(f.p, []byte(f.c))
+	}
+	if err := c50WriteTree(w.root, tree); err != nil {
+		t.Fatalf("harness: %v", err)
+	}
+	up := strings.Repeat("../", len(rootNames)+2)
+	abs := "/" + strings.Join(rootNames[:len(rootNames)-1], "/")
+	targets := []string{
+		"/a.txt", "/b.txt", "/index.html", "/sub/c.js", "/empty", "/only", "/sub", "/sub/", "/", "/missing", "/sub/missing", "/a.txt/", "/a.txt/x",
+		"/../secret.txt", "/../../secret.txt", "/" + up + "etc/passwd", "/sub/../../secret.txt", "/sub/../a.txt", "/./a.txt", "//a.txt", "/sub//c.js",
+		"/%2e%2e/secret.txt", "/%2E%2E/%2e%2e/secret.txt", "/..%2fsecret.txt", "/..%2Fa.txt", "/sub%2f..%2f..%2fsecret.txt", "/%2e%2e%2fsecret.txt",
+		"/..\\secret.txt", "/..%5csecret.txt", "/sub\\..\\..\\secret.txt", "/sub/b%5cc", "/sub/b\\c",
+		"/.../", "/...", "/....//secret.txt", "/sub/deep/x..", "/sub/deep/x../", "/%252e%252e/secret.txt", "/%252e%252e",
+		"/a.txt%00", "/%00", "/a.txt%00.gz", "/../secret.txt%00", "/sub/%00/../c.js",
+		"/" + strings.Repeat("x", 300), "/sub/" + strings.Repeat("x", 256), "/" + strings.Repeat("x", 255), "/" + strings.Repeat("x", 300) + "/../a.txt", "/" + c50Long200,
+		"/" + abs + "/secret.txt", "//" + abs + "/secret.txt", "/../rootx/secret.txt", "/../root/a.txt", "/../rootx/a.txt",
+		"/../a.txt", "/../../a.txt", "/../b.txt", "/../index.html", "/../a", "/sub/../../a.txt", "/../sub/b.txt", "/../d/a.txt",
+		"/a.txt?x=/../../secret.txt", "/a.txt?../secret.txt", "/%zz", "/%", "/%2", "a.txt", "../secret.txt", "/secret.txt",
+	}
+	n := 0
+	for _, dflt := range []string{"", "index.html", "sub/index.html"} {
+		for _, sub := range []string{"", "sub"} {
+			if sub != "" && dflt == "sub/index.html" {
+				continue
+			}
+			rules := []c50Rule{{Host: "s0.example.org", RootRel: sub, Default: dflt, Slash: n%2 == 1}}
+			n++
+			ruleJSON, err := w.load(rules)
+			if err != nil {
+				t.Fatalf("harness: mod_static refused rule file %s: %v", ruleJSON, err)
+			}
+			view := tree.sub(sub)
+			for _, tg := range targets {
+				for _, method := range []string{"GET", "HEAD", "POST", "OPTIONS"} {
+					for _, ae := range []string{"", "gzip", "br", "gzip, br", "gzip;q=0"} {
+						if method != "GET" && ae != "" && ae != "gzip" {
+							continue
+						}
+						c50One(t, rec, w, tree, view, rules[0], ruleJSON, method, tg, ae, []string{"sweep"})
+					}
+				}
+			}
+		}
+	}
+}
+
+func c50One(rt ev.TB, rec *ev.Rec, w *c50World, tree, view *c50Tree, rule c50Rule, ruleJSON, method, target, ae string, feats []string) {
 	res := c50Resolve(target, view)
 	var raw bytes.Buffer
 	fmt.Fprintf(&raw, "%s %s HTTP/1.1\r\nHost: %s\r\nConnection: close\r\n", method, target, rule.Host)
@@ -868,7 +940,7 @@ func c50OutsideSibling(w *c50World, rule c50Rule, decoded, ae string) bool {
 
 // c50CheckBodyIsSomeFile: the hard core of the property — a 200 body must be the
 // exact content of some file under the document root. Returns true if it is.
-func c50CheckBodyIsSomeFile(rt *rapid.T, rec *ev.Rec, wit map[string]any, view *c50Tree, rule c50Rule, body []byte, key string) bool {
+func c50CheckBodyIsSomeFile(rt ev.TB, rec *ev.Rec, wit map[string]any, view *c50Tree, rule c50Rule, body []byte, key string) bool {
 	for _, c := range view.Files {
 		if bytes.Equal(c, body) {
 			return true
